@@ -95,6 +95,13 @@ class Taint:
                             if ta and (i + 1) <= lc.arg_count and (i + 1) not in self.param_taint[lc.path] and is_int(ctx, lc.locals[i + 1]["ty"]):
                                 self.param_taint[lc.path][i + 1] = ta + " -> " + lc.path
                                 changed_any = True
+                    # the capacity of a standard container is not a count of anything: for zero-sized elements it is usize::MAX
+                    capfn = [a for a in c.args if a["k"] == "const" and a.get("fn") and a["fn"].endswith("::capacity")
+                             and not a["fn"].startswith(ctx.facts.crate + "::")]
+                    if ((c.method == "capacity" and lc is None and not (c.name or "").startswith(("hashbrown::", ctx.facts.crate + "::"))) or capfn) \
+                            and "dest" in t and t["dest"]["local"] not in lt:
+                        lt[t["dest"]["local"]] = "capacity() of a standard container (usize::MAX when the element type is zero-sized) @ %s" % c.where()
+                        changed = True
                     if "dest" in t and ty_has_int(ctx, t["dest"]["ty"]):
                         dst = t["dest"]["local"]
                         src = None
